@@ -64,7 +64,7 @@ fn apply_direct(s: &mut ShardReplicaState, e: &Ev) -> Obs {
     Obs { clock: Some(s.lamport_clock.time), delta }
 }
 
-thread_local! { static CONSISTENT: std::cell::Cell<bool> = std::cell::Cell::new(false); }
+thread_local! { static CONSISTENT: std::cell::Cell<bool> = std::cell::Cell::new(false); static NOREPL: std::cell::Cell<u64> = std::cell::Cell::new(0); static UNEXPECTED_DELTA: std::cell::Cell<bool> = std::cell::Cell::new(false); }
 /// local operation; in "kind-consistent" histories key k only holds strings and key j only hashes
 /// (the executor glue of the actor debug-asserts on a hash delta arriving over a string).
 fn gen_local(rng: &mut Rng) -> Ev {
@@ -140,6 +140,20 @@ fn main() {
                                 e
                             } else { break };
                             idx += 1;
+                            if idx > n_rec && rng.gen_bool(0.12) {
+                                // a command the glue does not replicate: must leave the replication state
+                                // (and in particular the shard's clock) alone
+                                let extra = match rng.gen_range(0..5) {
+                                    0 => Command::FlushAll,
+                                    1 => Command::FlushDb,
+                                    2 => Command::LPush("lst".to_string(), vec![SDS::new(b"x".to_vec())]),
+                                    3 => Command::Ping(None),
+                                    _ => Command::Persist("k".to_string()),
+                                };
+                                NOREPL.with(|c| c.set(c.get() + 1));
+                                let (_r, d) = h.execute(extra).await;
+                                if d.is_some() { UNEXPECTED_DELTA.with(|c| c.set(true)); }
+                            }
                             let cmd = match &e {
                                 Ev::Write(k, v, x) => Some(match x { Some(ms) => Command::setex(k.clone(), (*ms / 1000) as i64, SDS::new(v.clone())), None => Command::set(k.clone(), SDS::new(v.clone())) }),
                                 Ev::Delete(k) => Some(Command::Del(vec![k.clone()])),
@@ -203,6 +217,11 @@ fn main() {
             let cid = i * 4 + inc as u64;
             for e in &evs { out.count(&format!("ev:{}", ev_kind(e))); }
             out.count(if use_actor { "mode:actor" } else { "mode:direct" });
+            let nr = NOREPL.with(|c| c.replace(0));
+            for _ in 0..nr { out.count("non-replicated command interleaved (FLUSHALL/FLUSHDB/LPUSH/PING/PERSIST)"); }
+            if UNEXPECTED_DELTA.with(|c| c.replace(false)) {
+                out.violation(i * 4 + inc as u64, "a command that is not replicated emitted a delta", json!({"events": evs.iter().map(ev_term).collect::<Vec<_>>()}));
+            }
             // ---- the property, on the implementation
             let mut seen_max: Option<u64> = None;
             let mut saw_input = false;
